@@ -687,7 +687,7 @@ def oracle(query, out):
 def build_queries(run, mult):
     rng = run.rng
     quick = run.tier == "quick"
-    ndocs = (260 if quick else 4000) * mult
+    ndocs = (260 if quick else 12000) * mult
     lines = []
     cdir = os.path.join(vlib.VERIF, "corpus", "C14")
     if os.path.isdir(cdir):
